@@ -57,13 +57,19 @@ def configs(tier: str, seed: int):
     vals = subjref.alphabet(seed)
     cfgs = [{"kind": "subject", "scripts": s, "values": vals, "err": "plain"} for s in script_sets(tier)]
     cfgs.append({"kind": "subject", "scripts": [P, P, P], "values": vals, "err": "falsy"})
-    depth = 7 if tier == "quick" else 20
-    return cfgs, [depth] * len(cfgs)
+    depth = 7 if tier == "quick" else 30
+    depths = [depth] * len(cfgs)
+    # self-check of the state key (subjref.audit_merges): every merge re-validated by extending both histories
+    audits = [[["unsub", 1], ["unsub", 0], P]] if tier == "quick" else [[P, P, P], [["unsub", 1], ["unsub", 0], P], [["sub", 2], P, US(2)]]
+    for s in audits:
+        cfgs.append({"kind": "subject", "scripts": s, "values": vals, "err": "plain", "audit": 4 if tier == "quick" else 5})
+        depths.append(0)
+    return cfgs, depths
 
 
 def run(ctx: core.Ctx):
     cfgs, depths = configs(ctx.tier, ctx.seed)
-    ctx.bounds = {"depth": depths[0], "observers": 3, "configurations": [subjref.cfg_tag(c) for c in cfgs], "values": repr(cfgs[0]["values"])}
+    ctx.bounds = {"depth": max(depths), "observers": 3, "configurations": [subjref.cfg_tag(c) for c in cfgs if not c.get("audit")], "values": repr(cfgs[0]["values"])}
     ctx.assumptions = [
         "observers subscribe through the public Observable.subscribe (AutoDetachObserver in front of every observer)",
         "single thread: every lock is free between events (concurrency is C43/E3's subject)",
